@@ -28,7 +28,7 @@ func genSharedObs(tier string, seed int64, only string) []*Case {
 		n = 600
 	}
 	fixed := []string{"a:N1@1,b:N2@2,a:C@3,b:N3@4,b:C@5", "a:C@1,b:N1@2", "a:E1@1,b:N1@2,b:E2@3", "a:N1@1,a:C@2,a:N2@3,b:N3@4", "b:N1@1,a:N2@2,b:E1@3,a:N3@4,a:C@5"}
-	for _, via := range []string{"plain", "map", "mapboth"} {
+	for _, via := range []string{"plain", "map", "mapboth", "unsafesub", "unsafesubmap"} {
 		if only != "" && only != via {
 			continue
 		}
@@ -57,6 +57,15 @@ func runSharedObs(c *Case) string {
 	var oa, ob ro.Observable[int] = pa.Observable(), pb.Observable()
 	id := ro.Map(func(v int) int { return v })
 	switch c.get("via", "plain") {
+	case "unsafesub", "unsafesubmap":
+		// a hand-written observer (no status word of its own) wrapped ONCE by the caller in an unsafe Subscriber, and that
+		// subscriber attached to two sources built with the safe constructor: `newSubscriberImpl` reuses a destination that
+		// already is a Subscriber, so its single status word is the gate for both attachments
+		obs = ro.NewUnsafeSubscriber[int](&recObserver{rec: rec})
+		oa, ob = ro.Serialize[int]()(oa), ro.Serialize[int]()(ob)
+		if c.get("via", "") == "unsafesubmap" {
+			oa = ro.Serialize[int]()(id(oa))
+		}
 	case "map":
 		oa = id(oa)
 	case "mapboth":
